@@ -276,13 +276,15 @@ def parseCore (s : Str) : Option PepVersion :=
 /-- `Version.__init__`: `none` = `InvalidVersion`. -/
 def parsePep (s0 : Str) : Option PepVersion := parseCore (dropV (reStrip (lowerStr s0)))
 
-/-- What `parsePep` can produce (`C16_parse_wf`): a non-empty release, a normalised pre-release
-    letter, and local parts that are ints or non-empty lower-case alphanumeric words which are
-    not all digits. -/
+/-- a local part as `_parse_local_version` produces it: an int, or a non-empty lower-case
+    alphanumeric word that is not all digits -/
 def wfLocalSeg : LocalSeg → Bool
   | .num _ => true
   | .str s => !s.isEmpty && s.all isLocalChar && !allDigits s
 
+/-- What `parsePep` can produce (proved: `C16_parse_wf`): a non-empty release, a pre-release
+    letter normalised to `a`, `b` or `rc`, and a local version (if any) of at least one
+    well-formed part. -/
 def wfPep (v : PepVersion) : Bool :=
   !v.release.isEmpty &&
   (match v.pre with
